@@ -226,7 +226,7 @@ PROPS = {
     "C16": {
         "module": "TcVerif.Props.C16",
         "theorems": ["Tc.C16_abandon_invisible", "Tc.C16_commit_visible", "Tc.C16_readonly_refuses", "Tc.C16_readonly_reads",
-                     "Tc.C16_rows_add_index", "Tc.C16_rows_add_vec"],
+                     "Tc.C16_rows_add_index", "Tc.C16_rows_add_vec", "Tc.C16_rows_set_vec"],
         "leanchecker_modules": [],
         "runs": [
             {"family": "store", "flags": [], "quick": {"cases": 500, "max_len": 60}, "thorough": {"cases": 25000, "max_len": 120}},
